@@ -287,7 +287,31 @@ def execute(plan):
                         ch.set_channel_seed(op["seed"])
                         same = len(set(op["Nr"])) == 1 and len(set(op["Nt"])) == 1 and op["seed"] % 2 == 0
                         a_r, a_t = (int(op["Nr"][0]), int(op["Nt"][0])) if same else (Nr, Nt)      # equal antennas may be given as plain ints
-                        if ext:
+                        if not same and op["seed"] % 5 == 0:
+                            # plain Python lists: a tree may refuse them (the pinned one does, at once) or accept them; if it
+                            # refuses, NOTHING may have changed, and the caller then passes arrays
+                            snap_ok = m.raw is not None and m.pl_valid
+                            try:
+                                if ext:
+                                    ch.randomize(list(op["Nr"]), list(op["Nt"]), K, nte_arg)
+                                else:
+                                    ch.randomize(list(op["Nr"]), list(op["Nt"]), K)
+                                lists_ok = True
+                            except (AttributeError, TypeError, ValueError):
+                                lists_ok = False
+                                bump(res["faults"], "rejected-setter")
+                                if snap_ok and K == (len(m.Nr) if m.Nr is not None else K):
+                                    check_views(step, "all")
+                                    if res["status"] != "ok":
+                                        res["violations"][-1]["detail"] = "after randomize() refused plain lists: " + res["violations"][-1]["detail"]
+                                        break
+                                ch.set_channel_seed(op["seed"])
+                            if lists_ok:
+                                bump(res["probes"], "randomize_accepted_plain_lists")
+                                a_r = a_t = None
+                        if a_r is None:
+                            pass                                    # already randomised through the list form
+                        elif ext:
                             ch.randomize(a_r, a_t, K, nte_arg)
                         else:
                             ch.randomize(a_r, a_t, K)
